@@ -103,7 +103,7 @@ def work_item(args):
                     # on the complement of the listed witness predicates
                     from lvc.interp import Obligation
                     tr = ''.join('T' if t else 'F' for t in pr.trace)
-                    v1 = prove.discharge(ob, timeout_ms, quick=True)
+                    v1 = prove.discharge(ob, min(timeout_ms, 1500), quick=True)
                     if v1.status == 'discharged':
                         out['obligations'].append({'name': ob.name, 'status': 'discharged', 'solver': v1.solver,
                                                    'time_s': round(v1.time_s, 4), 'kind': ob.kind, 'trace': tr})
